@@ -95,7 +95,7 @@ def check(ctx):
         other = par.left if par.comparators[0] is u else par.comparators[0]
         lower_bound = (par.comparators[0] is u and isinstance(op, (ast.GtE, ast.Gt))) or (par.left is u and isinstance(op, (ast.LtE, ast.Lt)))
         ov = it.value_of(other)
-        elapsed = isinstance(other, ast.BinOp) and isinstance(other.op, ast.Sub) and ov is not None and ov.idx == ('FRAMEDIFF',)
+        elapsed = ov is not None and ov.idx == ('FRAMEDIFF',)
         # the true branch must admit (append) a jump
         st = pm.get(id(par))
         while st is not None and not isinstance(st, ast.If):
